@@ -65,10 +65,14 @@ def matrix_table() -> list:
     for m in rows:
         c = m.get("checks_with_change_applied", {})
         first = c.get(m["property"], {}).get("first") or m.get("error", "")
+        if "obsolete" in m:
+            L.append(f"| {m['id']} | {esc(m.get('needs_to_manifest', ''), 170)} | (obsolete) | {esc(m['obsolete'], 200)} |")
+            continue
         L.append(f"| {m['id']} | {esc(m.get('needs_to_manifest', ''), 170)} | {', '.join(m.get('caught_by', [])) or 'MISSED'} | {esc(first, 150)} |")
-    n = sum(1 for m in rows if m.get("caught"))
+    live = [m for m in rows if "obsolete" not in m]
+    n = sum(1 for m in live if m.get("caught"))
     L.append("")
-    L.append(f"{n} of {len(rows)} seeded changes are caught by the quick tier of their own property's check "
+    L.append(f"{n} of {len(live)} live seeded changes are caught by the quick tier of their own property's check "
              f"(/repo HEAD {rows[0].get('repo_head') if rows else '?'} when the matrix was last run).")
     return L
 
